@@ -74,20 +74,31 @@
         return result; \
     } \
 \
-    if (ISDIGIT(brs[1])) { /* ip address, possibly ipv4 */ \
-        if (is_ipaddr (brs + 1, bre) == 0) { \
-            result->rc = inverse(EEAV_IPADDR_INVALID); \
-            return result; \
-        } \
-        result->is_ipv4 = true; \
+    if (bre + 1 != end) { /* nothing is allowed after the bracket */ \
+        result->rc = inverse(EEAV_IPADDR_INVALID); \
+        return result; \
     } \
-    else { /* try ipv6 */ \
-        ch = strchr (brs + 1, ':'); \
-        if ((ch == NULL) || (is_ipaddr (ch + 1, bre) == 0)) { \
+\
+    if (strncmp (brs + 1, "IPv6:", 5) == 0) { /* tagged ipv6 */ \
+        if (is_ipv6 (brs + 6, bre) == 0) { \
             result->rc = inverse(EEAV_IPADDR_INVALID); \
             return result; \
         } \
         result->is_ipv6 = true; \
+    } \
+    else if (memchr (brs + 1, ':', bre - brs - 1) != NULL) { /* untagged ipv6 */ \
+        if (is_ipv6 (brs + 1, bre) == 0) { \
+            result->rc = inverse(EEAV_IPADDR_INVALID); \
+            return result; \
+        } \
+        result->is_ipv6 = true; \
+    } \
+    else { /* ipv4 */ \
+        if (is_ipv4 (brs + 1, bre) == 0) { \
+            result->rc = inverse(EEAV_IPADDR_INVALID); \
+            return result; \
+        } \
+        result->is_ipv4 = true; \
     } \
     /* valid ip addr. */ \
     result->rc = EEAV_NO_ERROR; \
